@@ -108,6 +108,8 @@ int main (int argc, char** argv)
 			p = hawk_arr_open(&gem, 0, 0); hawk_arr_setstyle(p, &pstyle);
 			hawk_arr_setheapposoffset(p, (hawk_oow_t)&((struct pitem*)0)->pos);
 			if (hawk_arr_getheapposoffset(p) != (hawk_oow_t)&((struct pitem*)0)->pos) printf("offset-not-kept ");
+			/* the model's maxCapa is (2^64-1)/8: 64-bit words and 8-byte slot pointers */
+			if (sizeof(hawk_oow_t) != 8 || sizeof(void*) != 8) printf("word-size-not-modelled ");
 			printf("ok\n");
 		}
 		else if (!a) printf("bad-op\n");
